@@ -234,10 +234,7 @@ func newCDP(t *testing.T, o cdpOpts) *cdpU {
 // setPrice writes the published price record directly (the "direct feeder").
 func (u *cdpU) setPrice(denom string, p uint64, active bool) {
 	a := u.byDenom[denom]
-	if u.c.Tape != nil {
-		u.c.Tape.Recs = append(u.c.Tape.Recs, sim.TapeRec{Kind: "env", Env: "price", Args: []string{denom, fmt.Sprint(p), fmt.Sprint(active)}})
-	}
-	u.c.App.MarketKeeper.SetTwa(u.c.Ctx(), markettypes.TimeWeightedAverage{AssetID: a.ID, ScriptID: 10, Twa: p, CurrentIndex: 0, IsPriceActive: active, PriceValue: []uint64{p}, DiscardedHeightDiff: -1})
+	u.c.SetTwa(markettypes.TimeWeightedAverage{AssetID: a.ID, ScriptID: 10, Twa: p, CurrentIndex: 0, IsPriceActive: active, PriceValue: []uint64{p}, DiscardedHeightDiff: -1})
 }
 
 func (u *cdpU) price(a *uAsset) (uint64, bool) {
